@@ -134,6 +134,9 @@ pub fn run(seed: u64, count: usize, outdir: &str) -> std::io::Result<i32> {
                 let mut orc = Oracle::default();
                 let vals = eval_arena(&g.ctx, &|v: Var| match v { Var::X => p.x, Var::Y => p.y, Var::Z => p.z, _ => f32::NAN }, &mut orc);
                 if vals.iter().any(|v| v.is_nan()) { continue; }
+                // a min / max of zeros of opposite sign, or atan2(0, 0), on the way: the evaluators may differ in the sign of a zero
+                // (C02) and in what atan2 / division make of it; such a pixel has no single reference value
+                if orc.zero_tie || orc.atan00 { continue; }
                 let want = vals[g.root.verif_index()];
                 npix += 1;
                 let px = img[y * c.w as usize + x];
